@@ -112,8 +112,11 @@ def c17(tier):
                 decls.append(("W%s/%s" % (list(comb), lab), d.render(cfg.attr_lines(), indent="")))
     if tier == "thorough":
         d = make_decl("i16", [5, -3, 100, 0, 7, -32768, 6], renames=True, salt=1)
-        for lab, cfg in c17_configs(d.gapless)[:2]:
+        for lab, cfg in c17_configs(d.gapless)[:3]:
             decls.append(("seven/%s" % lab, d.render(cfg.attr_lines(), indent="")))
+        d = make_decl("u64", [5, 3, 100, 0, 7, 1 << 40, 6, 4], renames=True, salt=2)
+        for lab, cfg in c17_configs(d.gapless)[:2]:
+            decls.append(("eight/%s" % lab, d.render(cfg.attr_lines(), indent="")))
     # declarations in ascending order (legal under sorted(value)), and truncation/sign aliases on wide reprs
     for n in range(2, maxn + 1):
         d = make_decl("i16", list(range(-2, -2 + n)), renames=False)
@@ -194,7 +197,7 @@ def c17(tier):
                 "choice points met (n! alternatives per map with n entries); non-trivial = declarations with at least one choice point with > 1 alternative")
     for lab, t in decls[:2] + decls[len(decls) // 2:len(decls) // 2 + 2] + decls[-2:]:
         res.sample({"declaration": lab, "text": re.sub(r"\s+", " ", t)[:300]})
-    res.bounds = {"max_variants": maxn if tier == "quick" else 7, "max_alternatives_per_point": "n!"}
+    res.bounds = {"max_variants": maxn if tier == "quick" else 8, "max_alternatives_per_point": "n!"}
     return res.finish()
 
 
